@@ -9,8 +9,9 @@ exon junctions, each other; records are written in GENE coordinates for every is
   core     exception OFF, trypsin (60 %) + every rule whose alternatives all have look-ahead
   collapse core cases re-run with other collapse knobs (set must be identical)
   excon    trypsin with trypsin_exception        (known finding D14 is classified by its signature)
-  nola     rules having an alternative without look-ahead (known finding: the engine aborts)
+  nola     rules having an alternative without look-ahead (the engine used to abort on them: fixed db08c8d)
   wide     pepsin (look-behind 2 + look-ahead 2; known finding D14b)
+  flags    trypsin with --selenocysteine-termination and / or --w2f-reassignment (must_set_fl, SpecAlt.v)
 A missing obliged peptide that matches no signature is a VIOLATION with the input as replay.
 """
 import json, os, glob, collections
@@ -21,8 +22,8 @@ ROOT = os.path.dirname(os.path.dirname(os.path.dirname(os.path.abspath(__file__)
 
 def sizes(ctx):
     if ctx.quick:
-        return dict(core=900, excon=350, nola=120, wide=60)
-    return dict(core=17000, excon=6000, nola=1200, wide=800)
+        return dict(core=900, excon=350, nola=120, wide=60, flags=200)
+    return dict(core=17000, excon=6000, nola=1200, wide=800, flags=4000)
 
 def gen_cases(ctx):
     rng = ctx.rng
@@ -57,6 +58,13 @@ def gen_cases(ctx):
         c['runs'] = [CG.gen_run(rng, rule=rc['wide'][i % len(rc['wide'])], exc_on=False)]
         c['stream'] = 'wide'
         cases.append(c)
+    # alt-translation flags (Model/SpecAlt.v)
+    for i in range(n.get('flags', 0)):
+        c = CG.gen_case(rng, coding_p=0.85)
+        sect, w2f = rng.choice([(True, False), (False, True), (True, True)])
+        c['runs'] = [CG.gen_run(rng, rule='trypsin', exc_on=False, sect=sect, w2f=w2f)]
+        c['stream'] = 'flags'
+        cases.append(c)
     return cases
 
 def corpus_cases():
@@ -77,13 +85,9 @@ def judge(evs, violations, stats, reps=None):
         st = ev.case.get('stream', '?').split(':')[0]
         stats['runs:' + st] += 1
         if ev.exc:
-            if CK.is_nola_crash(ev.run, ev.exc):
-                stats['crash_nolookahead'] += 1
-                violations.append({'what': 'callVariant aborts (IndexError, empty node in the cleavage graph) for rule %r' % ev.run['rule'],
-                                   'replay_obj': CK.replay_obj(ev, 'crash'), 'no_input': False, 'finding': CK.F_NOLA})
-            else:
-                violations.append({'what': 'callVariant aborted with %s: nothing is reported (%s)' % (ev.exc['__exc__'], ev.exc.get('msg', '')[:120]),
-                                   'replay_obj': CK.replay_obj(ev, 'crash'), 'no_input': False})
+            violations.append({'what': 'callVariant aborted with %s: nothing is reported (%s; rule %s)' % (
+                                   ev.exc['__exc__'], ev.exc.get('msg', '')[:120], ev.run['rule']),
+                               'replay_obj': CK.replay_obj(ev, 'crash'), 'no_input': False})
             continue
         stats['must_peptides'] += len(ev.must)
         stats['out_peptides'] += len(ev.got)
